@@ -30,7 +30,7 @@ def entries(tier):
                                                    Buf('out', 512, init=T.var('out0', 4096))],
                   ['out'], True))
     # JH: one E8 round per query (algebraic normal form makes every arm's bit-sliced formulas canonical); the whole f8 per arm is C06
-    for r in ((0, 6, 41) if tier == 'quick' else range(42)):
+    for r in ((0, 1, 2, 3, 4, 5, 6, 41) if tier == 'quick' else range(42)):      # rounds 0..6 use the seven different swap widths
         e.append(('jh:round%d' % r, 'h_jh_rounds', lambda r=r: [Buf('state', 128, init=T.var('jh', 1024)), Sc('from', 64, r), Sc('to', 64, r + 1)], ['state'], False))
     return e
 
